@@ -49,9 +49,29 @@ def run_property(prop, tier, repo=None, facts_by_config=None, write=True, quiet=
             ctx = Ctx(facts)
             ctxs.append(ctx)
             report.configs.append(name)
-            mod.run(ctx, report)
+            try:
+                mod.run(ctx, report)
+            except Exception as exc:  # fail closed, but say that it is the checker that gave up
+                import traceback
+                tb = traceback.format_exc()
+                report.violate("INTERNAL", "analysis-error", "the rule pack could not analyse this tree (%s: %s); nothing is established" % (type(exc).__name__, exc), config=name, detail=tb[-1500:])
         if hasattr(mod, "finish"):
             mod.finish(ctxs, report)
+        if tier == "thorough" and getattr(mod, "WITNESSES", None):
+            import witness
+            res = witness.run_witnesses(repo)
+            if "build" in res:
+                report.violate("WITNESS", "build", "the witness crate does not build against the current tree: %s" % res["build"][1][-400:])
+            for w in mod.WITNESSES:
+                for kind in ("forbidden", "twin"):
+                    k = "%s/%s" % (w, kind)
+                    if k not in res:
+                        if "build" not in res:
+                            report.violate("WITNESS", k, "witness %s did not run" % k)
+                        continue
+                    okw, verdict = res[k]
+                    desc = ("user code that must not type-check is rejected by rustc (%s)" % w) if kind == "forbidden" else ("the compiling twin of %s type-checks" % w)
+                    report.check("WITNESS", k, okw, desc, ("witness %s: code that must be rejected compiles (or fails with another error code)" % w) if kind == "forbidden" else ("twin of %s no longer compiles: the witness is vacuous" % w))
     wall = time.time() - t0
 
     known = [k for k in load_known_findings() if k.get("property") == prop and k.get("status") == "known"]
@@ -89,7 +109,10 @@ def run_property(prop, tier, repo=None, facts_by_config=None, write=True, quiet=
         lines.append("  violated %s at %s in %s [%s]: %s" % (v.key, v.sp, v.fn, ",".join(v.configs), v.msg))
         lines.append("VIOLATION property=%s replay=%s" % (prop, path))
     if not quiet:
-        print("\n".join(lines))
+        try:
+            print("\n".join(lines), flush=True)
+        except BrokenPipeError:
+            pass
 
     if write:
         write_evidence(prop, tier, report, wall, len(new_violations), mod, known_hit)
